@@ -197,7 +197,9 @@ func pick(t *rapid.T, label string, s []string) string {
 	return s[rapid.IntRange(0, len(s)-1).Draw(t, label)]
 }
 
-var nickPool = []string{"alice", "bob", "carol", "dave", "Alice", "BOB", "d[ave]", "d{ave}", "D\\x", "d|X", "eve", "x", "mallory", "trent_", "a-b", "`w^"}
+var nickPool = []string{"alice", "bob", "carol", "dave", "Alice", "BOB", "d[ave]", "d{ave}", "D\\x", "d|X", "eve", "x", "mallory", "trent_", "a-b", "`w^",
+	// nicknames of the maximal lengths, and names that differ from them only behind the 30th character
+	"n23456789o123456789p123456789q", "n23456789o123456789p123456789q1", "n23456789o123456789p123456789q2", "N23456789O123456789P123456789Qx"}
 var svcNickPool = []string{"ChanServ", "NickServ", "OperServ", "BotServ", "HostServ"}
 var badNickPool = []string{"", "1abc", "has space", "waytoolongnicknamewaytoolongnickname1", "ünï", "a,b", "#chan", "a!b", "x@y", "*", "$$"}
 var chanPool = []string{"#a", "#b", "#c", "#A", "#secret", "#x", "#B", "#[x]", "#{x}"}
@@ -1057,7 +1059,7 @@ func (g *Gen) wellFormed(t *rapid.T, w *World, s *SessInfo) string {
 			return "KICK " + c + " " + g.memberOr(t, w, c, n) + pick(t, "kickmsg", []string{" :out", "", " :"})
 		}},
 		{8, func() string {
-			return pick(t, "msgcmd", []string{"PRIVMSG", "NOTICE"}) + " " + pick(t, "msgtarget", []string{cl, c, n, nl, "$*", "$$", cl + "," + nl}) + " :" + g.genText(t)
+			return pick(t, "msgcmd", []string{"PRIVMSG", "NOTICE"}) + " " + pick(t, "msgtarget", []string{cl, c, n, nl, "$*", "$$", cl + "," + nl, n + "x", n + "1"}) + " :" + g.genText(t)
 		}},
 		{4 * wPriv, func() string {
 			return "TOPIC " + c + pick(t, "topicarg", []string{"", " :", " :new topic", " :" + g.genText(t), " notrailing"})
